@@ -980,16 +980,18 @@ func gmCorpus() []run.Case {
 			open(0, 1, 4, 1), gmW(0, 10), o("close", 0),
 			open(1, 1, 4, 2), gmW(1, 9), o("close", 1), o("abort", 1), fo("claim", 1),
 			{name: "dopen", h: 0, fid: 1}, {name: "dread", h: 0, a: 20}}})
-	// known finding gridfs:failed-upload-chunks-left — untracked: the id of an EMPTY file; UploadFromStreamWithID fails at
-	// Close (files document) and returns without Abort: its chunks stay
+	// untracked: the id of an EMPTY file; UploadFromStreamWithID fails at Close (files document) and must abort the
+	// stream: none of its chunks may stay (witness gridfs:failed-upload-chunks-left; fixed in /repo 5660354)
 	cases = append(cases, &gmCase{kind: "id-collision", nontrivial: true, nfiles: 1, tags: []string{"victim:empty", "collide:upload-from-stream"},
 		contents: []gfsContent{ct(0, 1), ct(9, 2)},
 		ops:      []gmOp{open(0, 1, 4, 0), o("close", 0), {name: "upload", fid: 1, chunk: 4, ci: 1}, {name: "dopen", h: 0, fid: 1}, {name: "dread", h: 0, a: 4}}})
-	// known finding gridfs:foreign-marker-deleted — tracked: finished, unclaimed upload; a second stream with the id fails
-	// to Resume ("invalid marker state") but keeps the marker it found, Abort deletes it: the upload cannot be claimed
+	// tracked: finished, unclaimed upload; a second stream with the id fails to Resume ("invalid marker state") and must
+	// not adopt the marker it found: after its Abort the upload is still claimed and downloads byte-identically
+	// (witness gridfs:foreign-marker-deleted; fixed in /repo a751503)
 	cases = append(cases, &gmCase{kind: "id-collision", tracked: true, nontrivial: true, nfiles: 1, tags: []string{"victim:unclaimed", "collide:resume-abort"},
 		contents: []gfsContent{ct(10, 1), ct(9, 2)},
-		ops:      []gmOp{open(0, 1, 4, 0), gmW(0, 10), o("close", 0), open(1, 1, 4, 1), o("resume", 1), o("abort", 1), fo("claim", 1)}})
+		ops:      []gmOp{open(0, 1, 4, 0), gmW(0, 10), o("close", 0), open(1, 1, 4, 1), o("resume", 1), o("abort", 1), fo("claim", 1),
+			{name: "dopen", h: 0, fid: 1}, {name: "dread", h: 0, a: 20}, {name: "dread", h: 0, a: 1}}})
 	var out []run.Case
 	for _, c := range cases {
 		out = append(out, gmExec(c))
